@@ -198,7 +198,8 @@ def random_instance(rng, fedjax, leaves=2, max_clients=5, rounds=None, dyadic=Tr
           'mu': R(0), 'rounds': rounds, 'cohorts': cohorts}
   exact = (dyadic and all(is_pow2(len(b)) for s in streams for b in s)
            and all(is_pow2(t) or t == 0 for t in (sum(len(data[c - 1]) for c in co) for co in cohorts)))
-  if not within_island(dict(inst, mu=R(1))):   # also room for a proximal weight
+  # as it is, and with room for a proximal weight (a proximal term can shrink the values: neither bound implies the other)
+  if not (within_island(inst) and within_island(dict(inst, mu=R(1)))):
     return None
   return {'inst': inst, 'h': h, 'exact': exact}
 
